@@ -299,7 +299,7 @@ class ListNamesWrapper(FnContract):
         if outcome[0] != 'return':
             return
         gens = [e for e in ex.events if e[0] == 'generator_created' and e[1] in self.scanners]
-        mine = [g for g in gens if L.simp(g[4]).eq(L.simp(outcome[1]))]
+        mine = [g for g in gens if ex.same(g[4], outcome[1])]
         ex.prove('C18:list_names:yields-from-a-scan-started-by-this-call', ['C18', 'C11'], len(mine) == 1,
                  {'generators_created': len(gens)})
         for g in mine:
